@@ -299,7 +299,7 @@ pub fn run(cfg: &Cfg) {
         }
         cp += if cp < 0x300 { 1 } else { stride * 53 };
     }
-    let alpha = ['\\', '"', 'n', '\n', '\t', 'u', 'x'];
+    let alpha = ['\\', '"', 'n', '\n', '\t', 'u', 'x', '\u{e9}', '\u{65e5}', '0'];
     for a in alpha {
         for b in alpha {
             for c in alpha {
@@ -312,7 +312,7 @@ pub fn run(cfg: &Cfg) {
     sink.finish(&cfg.out, serde_json::json!({}));
 }
 
-fn link_with(s: &str) -> MetadataWrapper {
+pub(crate) fn link_with(s: &str) -> MetadataWrapper {
     use in_toto::models::byproducts::ByProducts;
     use in_toto::models::{LinkMetadataBuilder, VirtualTargetPath};
     use std::collections::{BTreeMap, HashMap};
